@@ -210,24 +210,34 @@ def serverHandler (s : State) (r : Req) (m : Method) : State × HRes :=
   | .notifications_cancelled | .notifications_progress | .notifications_roots_list_changed => (s, .ok)
   | _ => (s, featureRes r)
 
-/-- `ServerSession.handle` for one envelope. -/
-def admit (s : State) (r : Req) : State × Outcome :=
+/-- Default arm of the gate, new protocol on a session without `InitializeParams`: the identity carried
+by `_meta` becomes the session's. -/
+def adopt (s : State) (r : Req) : GateRes → State
+  | .passAdopt => { s with init := some ⟨metaTag r, metaVersion r⟩ }
+  | _ => s
+
+/-- `handleReceive`: `checkRequest`, `unmarshalParams`, then the method handler. -/
+def dispatch (s : State) (r : Req) : State × Outcome :=
+  match checkAndDecode serverMethodInfos r with
+  | .error c => (s, reject r c)
+  | .ok m => ((serverHandler s r m).1, .invoked m (serverHandler s r m).2)
+
+def unsupportedVersion (r : Req) : Bool :=
+  usesNew r && !supportedProtocolVersions.contains (metaVersion r)
+
+/-- `ServerSession.handle` for one envelope (after the preempter). -/
+def admitReq (s : State) (r : Req) : State × Outcome :=
   if preemptDrops r then (s, .ignored) else
   match metaError r with
   | some c => (s, reject r c)
   | none =>
-    if usesNew r && !supportedProtocolVersions.contains (metaVersion r) then
+    if unsupportedVersion r then
       (s, reject r codeUnsupportedProtocolVersion supportedProtocolVersions)
     else
       match gate s.init.isSome (usesNew r) r.method with
       | .refuse c => (s, reject r c)
-      | g =>
-        let s1 : State := if g == .passAdopt then { s with init := some ⟨metaTag r, metaVersion r⟩ } else s
-        match checkAndDecode serverMethodInfos r with
-        | .error c => (s1, reject r c)
-        | .ok m =>
-          let (s2, res) := serverHandler s1 r m
-          (s2, .invoked m res)
+      | .pass => dispatch s r
+      | .passAdopt => dispatch (adopt s r .passAdopt) r
 
 /-- The client's method functions, in the harness configuration. -/
 def clientHandler (r : Req) (m : Method) : HRes :=
@@ -267,10 +277,10 @@ def answer (r : Req) : Outcome → Answer
 /-- Running a history: every step with the state it started from. -/
 def trace : State → List Req → List (State × Req × Outcome)
   | _, [] => []
-  | s, r :: rs => (s, r, (admit s r).2) :: trace (admit s r).1 rs
+  | s, r :: rs => (s, r, (admitReq s r).2) :: trace (admitReq s r).1 rs
 
 def finalState : State → List Req → State
   | s, [] => s
-  | s, r :: rs => finalState (admit s r).1 rs
+  | s, r :: rs => finalState (admitReq s r).1 rs
 
 end Gate
